@@ -50,6 +50,7 @@ class Translator:
         self.pending_clone = []  # pids with an unfinished clone/fork/vfork
         self.names = {}         # model path -> real relative path (for reports)
         self.unfinished = {}    # pid -> partial line
+        self.parent_of = {}     # child pid -> parent pid (first pass)
 
     # ---- path mapping
     def rel(self, p):
@@ -88,7 +89,12 @@ class Translator:
     # ---- fd tables
     def table(self, pid):
         if pid not in self.fdt:
-            src = self.pending_clone[-1] if self.pending_clone else None
+            # first appearance of a process: it inherits its parent's descriptors as they are now.
+            # The parent is known from a first pass over the log (clone/fork/vfork return values);
+            # with several builders forking at the same time "the most recent pending clone" is not reliable.
+            src = self.parent_of.get(pid)
+            if src is None and self.pending_clone:
+                src = self.pending_clone[-1]
             self.fdt[pid] = dict(self.fdt.get(src, {})) if src is not None else {}
         return self.fdt[pid]
 
@@ -238,9 +244,17 @@ def coq_ops(ops):
     return "[" + "; ".join(coq_op(o) for o in ops) + "]"
 
 
+CLONE_RET = re.compile(r"^(\d+)\s+(?:(?:clone3?|fork|vfork)\(.*\)|<\.\.\. (?:clone3?|fork|vfork) resumed>.*\))\s+=\s+(\d+)\s*$")
+
+
 def translate(strace_file, cache_dir):
     tr = Translator(cache_dir)
-    for line in open(strace_file, errors="replace"):
+    lines = open(strace_file, errors="replace").read().splitlines()
+    for line in lines:
+        m = CLONE_RET.match(line)
+        if m:
+            tr.parent_of[int(m.group(2))] = int(m.group(1))
+    for line in lines:
         tr.feed(line)
     return tr
 
